@@ -538,6 +538,9 @@ def c05_reconfigure(args):
     g = layout.interpret(Tree(node), model)
     if args.get('strip'):
         g.epidata = {}
+    if args.get('implicit_top'):
+        # a hand-built graph: no markers, the top is implicit (the first triple's source)
+        g = Graph(g.triples)
     vs = sorted(g.variables())
     top = None if args.get('top') is None else vs[args['top'] % len(vs)]
     consts = {written(t) for s, r, t in g.triples if t not in g.variables() and r != ':instance'}
@@ -572,7 +575,8 @@ def run_C05(R):
         k = R.rnd.choice(keys)
         R.check('C05.reconfigure', {'node': node, 'model': m, 'key': k,
                                     'top': R.rnd.choice([None, None, 0, 1, 2, 3]),
-                                    'strip': R.rnd.random() < 0.3, 'seed': R.rnd.randrange(100)})
+                                    'strip': R.rnd.random() < 0.3, 'seed': R.rnd.randrange(100),
+                                    'implicit_top': R.rnd.random() < 0.3})
     for node in gens.corpus(R, 1500 if R.quick else 30000, thorough_extra=False):
         R.check('C05.reconfigure', {'node': node, 'model': 'default', 'key': 'canonical',
                                     'top': R.rnd.choice([None, 0, 1, 2])})
